@@ -161,7 +161,7 @@ fn run(args: &Args, rec: &mut Recorder) {
     rec.rule = "evaluation (= program) = one input fed to both builds (shipped specification.rs vs. specification_orig.rs expanded by the in-tree a2lmacros) in one process; compared: Ok/Err + error text, every log entry, Debug view of the model (as a line multiset), written text, text after sort(), sort_new_items(), merge_includes(), check() report. distinct_nontrivial = distinct inputs by content hash".into();
     rec.assumptions.push("all modules other than the specification are the same source files in both builds (symlink farm); Debug text compared as a sorted multiset of lines (HashMap order in GenericIfData is unstable)".into());
     let g = Grammar::load_default();
-    let total: u64 = if args.thorough { 1_000_000 } else { 20_000 };
+    let total: u64 = if args.thorough { 2_000_000 } else { 60_000 };
     let mut srng = Rng::derive(&[args.seed, 0xC20, args.shard]);
     let seeds = Seeds::build(&g, &mut srng, 12);
     let mut tags = g.all_tags();
